@@ -421,3 +421,22 @@ Definition stream_site := (str * str * Z * str)%type.
 Definition readonly_method (m : str) : bool :=
   mem_str m [s "seek"; s "tell"; s "read"; s "getvalue"; s "readable"; s "seekable"; s "readline";
              s "read1"; s "peek"; s "closed"; s "getbuffer().nbytes"].
+
+(* ======================================================================= Part D: process history *)
+(* A process-global registry of the standard library (mimetypes database, codec / namespace registries,
+   environment ...): key -> value.  Importing or running an extractor may WRITE entries (fx_writes: what
+   the ast inventory Gen/C06Sites.stdlib_global_writes lists for it); an extraction READS the registry
+   through an arbitrary function `f` (oracle: the library's lookup, e.g. mimetypes.guess_type). *)
+Definition registry := list (str * str).
+Record effect := mkFx { fx_writes : list (str * str) }.
+
+(* registry after the process went through `hist` (imports / extractions, oldest first); a later write of a
+   key shadows earlier ones (assoc finds the first) *)
+Definition after_history (hist : list effect) (g : registry) : registry :=
+  fold_left (fun g' e => fx_writes e ++ g') hist g.
+
+(* result of extracting x in a process with history `hist` *)
+Definition extract_after {R : Type} (f : registry -> str -> R) (hist : list effect) (g : registry) (x : str) : R :=
+  f (after_history hist g) x.
+
+Definition writes_nothing (e : effect) : bool := is_nil (fx_writes e).
